@@ -130,8 +130,9 @@ pub fn qlaws(cfg: &mut Cfg, rep: &mut Report) {
 
 /// C20: every statistic gives the same answer on logically equal arrays
 pub fn layouts(cfg: &mut Cfg, rep: &mut Report) {
-    rep.bound = "random integer-valued data on shapes 1-D..4-D (sizes <= 16); pairs (canonical C-order array, re-layout) for F-order, stepped-in-parent, reversed axes, embedded at an offset; ownership owned/view/shared/copy-on-write/dynamic-dimensional; order-based and integer routines bit-identical, float sums of small integers exact".to_string();
+    rep.bound = "random integer-valued data on shapes 1-D..4-D (sizes <= 16); pairs (canonical C-order array, re-layout) for F-order, stepped-in-parent, reversed axes, embedded at an offset; ownership owned/view/shared/copy-on-write/dynamic-dimensional; order-based and integer routines bit-identical, float sums of small integers exact; plus 8 f64 data sets with 0.0 / -0.0 ties for the value forms of the extrema".to_string();
     let shapes: Vec<Vec<usize>> = if cfg.thorough { vec![vec![5], vec![2, 3], vec![3, 2], vec![2, 2, 2], vec![2, 1, 3], vec![2, 2, 1, 2], vec![1, 4]] } else { vec![vec![4], vec![2, 3], vec![2, 2, 2], vec![2, 1, 1, 2]] };
+    extremum_ties(cfg, rep);
     let mut rng = Lcg(cfg.seed + 31);
     let reps = if cfg.thorough { 25 } else { 8 };
     for shape in shapes { for _ in 0..reps {
@@ -174,6 +175,32 @@ pub fn layouts(cfg: &mut Cfg, rep: &mut Report) {
             rep.eval(&case, size >= 2);
         }
     }}
+}
+
+/// C20, value forms of the extrema on data with ties between distinguishable elements (0.0 and -0.0 compare equal):
+/// which of the tied elements min / max / min_skipnan / max_skipnan return must not depend on the layout (bit patterns compared)
+fn extremum_ties(cfg: &mut Cfg, rep: &mut Report) {
+    // the logically first element is not extremal and both zeros occur: the element returned is then the first tied one that
+    // the traversal meets
+    let datasets: Vec<(Vec<usize>, Vec<f64>)> = vec![
+        (vec![3], vec![1.0, 0.0, -0.0]), (vec![3], vec![1.0, -0.0, 0.0]),
+        (vec![2, 2], vec![1.0, 0.0, -0.0, 2.0]), (vec![2, 2], vec![3.0, -0.0, 0.0, 2.0]),
+    ];
+    for (shape, data) in datasets {
+        let base = ArrayD::from_shape_vec(IxDyn(&shape), data.clone()).unwrap();
+        for neg in [false, true] {
+            let b = if neg { base.mapv(|x| -x) } else { base.clone() };
+            let fp = |r: &Relayout<f64>| { let v = r.view(); format!("min={:x} max={:x} min_skipnan={:x} max_skipnan={:x}", v.min().unwrap().to_bits(), v.max().unwrap().to_bits(), v.min_skipnan().to_bits(), v.max_skipnan().to_bits()) };
+            let canon = fp(&Relayout::new(&b, "c", 0.125));
+            for lay in LAYOUTS {
+                let case = format!("layouts;class=extremum_tie_choice;shape={:?};data={:?};layout={}", shape, b.iter().map(|x| format!("{:?}", x)).collect::<Vec<_>>(), lay);
+                if !rep.want(cfg, &case) { continue; }
+                let got = fp(&Relayout::new(&b, lay, 0.125));
+                if got != canon { rep.fail(cfg, &case, "which of several equal extremal elements is returned depends on the memory layout", json!({"got": got, "canonical": canon})); }
+                rep.eval(&case, lay != "c");
+            }
+        }
+    }
 }
 
 /// a fingerprint of every layout-independent statistic, as strings (bit patterns for floats)
